@@ -101,3 +101,54 @@ def bk_t1(x):
 
 def bk_t2(x):
     return x
+
+
+# ---- C13: trigger targets and argument callbacks (module level: the providers are serialised by reference) ----
+def tg_single(x="?"):
+    return x
+
+
+def tg_either(x="?"):
+    return x
+
+
+def tg_both(x="?"):
+    return x
+
+
+def tg_src(x):
+    if isinstance(x, str) and x.startswith("fail"):
+        raise ValueError(x)
+    return x
+
+
+def tg_status(x="?"):
+    return x
+
+
+def tg_result(x="?"):
+    return x
+
+
+def tg_exc(x="?"):
+    return x
+
+
+def tg_cron():
+    return "tick"
+
+
+def ev_args(ctx):
+    return {"x": f"{ctx.payload['c']}{ctx.payload['n']}"}
+
+
+def status_args(ctx):
+    return {"x": f"status:{ctx.invocation_id}"}
+
+
+def result_args(ctx):
+    return {"x": f"result:{ctx.invocation_id}"}
+
+
+def exc_args(ctx):
+    return {"x": f"exc:{ctx.invocation_id}"}
